@@ -225,21 +225,29 @@ def audit(ctx, pid, spec):
                 if inside_section(txt_nc, m.start()):
                     continue
             problems.append('forbidden word %r in %s' % (w, os.path.relpath(f, ctx.root)))
-    pf = os.path.join(ctx.coq, spec['props_file'])
-    src = strip_coq_comments(open(pf).read())
-    thms = re.findall(r'\bTheorem\s+([A-Za-z0-9_\']+)', src)
-    # every theorem of the property file must be closed by `exact <lemma>. Qed.` and have a Print Assumptions
-    rc, out = run(['coqc', '-Q', ctx.coq, 'Krp', pf], cwd=ctx.coq, timeout=1800)
-    if rc != 0:
-        problems.append('property file does not compile: ' + out[-2000:])
-        return dict(obligations=len(thms), discharged=0, problems=problems, assumptions={}, theorems=thms)
-    printed = re.findall(r'\bPrint\s+Assumptions\s+([A-Za-z0-9_\']+)', src)
-    # split coqc output into one chunk per Print Assumptions, in order
-    chunks = split_assumption_output(out, len(printed))
+    thms = []
     assumptions = {}
     discharged = 0
-    for name, chunk in zip(printed, chunks):
-        assumptions[name] = chunk.strip()
+    for rel in [spec['props_file']] + list(spec.get('extra_props_files', [])):
+        pf = os.path.join(ctx.coq, rel)
+        if pf not in project_files(ctx):
+            problems.append('%s is not part of _CoqProject' % rel)
+            continue
+        src = strip_coq_comments(open(pf).read())
+        these = re.findall(r'\bTheorem\s+([A-Za-z0-9_\']+)', src)
+        thms += these
+        # every theorem of the property file must be closed by `exact <lemma>. Qed.` and have a Print Assumptions
+        rc, out = run(['coqc', '-Q', ctx.coq, 'Krp', pf], cwd=ctx.coq, timeout=1800)
+        if rc != 0:
+            problems.append('property file %s does not compile: %s' % (rel, out[-2000:]))
+            continue
+        printed = re.findall(r'\bPrint\s+Assumptions\s+([A-Za-z0-9_\']+)', src)
+        # split coqc output into one chunk per Print Assumptions, in order
+        chunks = split_assumption_output(out, len(printed))
+        for name, chunk in zip(printed, chunks):
+            assumptions[name] = chunk.strip()
+    if any('does not compile' in x for x in problems):
+        return dict(obligations=len(thms), discharged=0, problems=problems, assumptions={}, theorems=thms)
     for t in thms:
         if t not in assumptions:
             problems.append('theorem %s has no Print Assumptions' % t)
@@ -256,7 +264,7 @@ def audit(ctx, pid, spec):
                 discharged += 1
     for t in spec.get('theorems', []):
         if t not in thms:
-            problems.append('expected theorem %s is missing from %s' % (t, spec['props_file']))
+            problems.append('expected theorem %s is missing from the property files of %s' % (t, pid))
     return dict(obligations=len(thms), discharged=discharged, problems=problems,
                 assumptions=assumptions, theorems=thms)
 
